@@ -19,7 +19,7 @@ RULE = ("histories as in C04 extended with copy() and overwrite=True re-creation
         "values[start_k:end_k] equal to the model; non-trivial as C04; distinct = canonical spec")
 ASSUMPTIONS = c04.ASSUMPTIONS + ["decoder implements the documented format only (README text of the ragged array)"]
 EXHAUSTIVE = None
-MUST_HIT = ['n=0-after-having-subarrays', 'trailing-zero-length', 'overwrite-recreate', 'copy', 'how:create', 'how:as']
+MUST_HIT = ['ops-inside-open-context', 'n=0-after-having-subarrays', 'trailing-zero-length', 'overwrite-recreate', 'copy', 'how:create', 'how:as']
 
 
 def execute(ctx, spec):
